@@ -1578,6 +1578,31 @@ def rule_openloop_vertices(repo):
     if len(loops) < 2:
         raise AnalysisError(f"{fq}: the loops that create the callee vertices were not found")
     for lp in loops:
+        # where the top-level callees come from: a design-wide filter that keeps the objects HOSTED by the top component.  A port
+        # that sits inside an interface of top has the interface as its parent object, so the parent relation is not the test.
+        src = reaching_value(lp.iter.id, lp) if isinstance(lp.iter, ast.Name) else lp.iter
+        pred = src.args[0] if isinstance(src, ast.Call) and norm(src.func) == 'top.get_all_object_filter' and len(src.args) == 1 else None
+        if isinstance(pred, ast.Name):
+            # the predicate as a named local: a `def p(x): return <expr>` of this function or `p = lambda x: <expr>`
+            defs = [n for n in ast.walk(f) if isinstance(n, ast.FunctionDef) and n.name == pred.id]
+            if len(defs) == 1 and len([st for st in defs[0].body if not (isinstance(st, ast.Expr) and isinstance(st.value, ast.Constant))]) == 1 \
+                    and isinstance(defs[0].body[-1], ast.Return) and defs[0].body[-1].value is not None:
+                pred = ast.Lambda(args=defs[0].args, body=defs[0].body[-1].value)
+            else:
+                pred = reaching_value(pred.id, src)
+        lam = pred if isinstance(pred, ast.Lambda) else None
+        if lam is None:
+            raise AnalysisError(f"{fq}: the source of `{norm(lp.iter)}` is not a design-wide filter")
+        x = lam.args.args[0].arg
+        conj = lam.body.values if isinstance(lam.body, ast.BoolOp) and isinstance(lam.body.op, ast.And) else [lam.body]
+        member = [c for c in conj if isinstance(c, ast.Compare) and len(c.ops) == 1 and isinstance(c.ops[0], (ast.Is, ast.Eq)) and
+                  'top' in (norm(c.left), norm(c.comparators[0]))]
+        rel = [norm(c.left if norm(c.comparators[0]) == 'top' else c.comparators[0]) for c in member]
+        ok = rel == [f"{x}.get_host_component()"]
+        (r.ok if ok else r.bad)(m, fq, f"source of {norm(lp.iter)}: objects with {rel[0] if rel else '?'} is top",
+                                *([] if ok else [f"the callees of the top component are selected by `{rel[0] if rel else norm(lam.body)}`: a callee port inside an "
+                                                 f"interface of top (parent object = the interface, host component = top) is not found, gets no vertex and "
+                                                 f"no wrapper, and every constraint on it (U(up) < M(ifc.port)) is ignored", lp.lineno]))
         inside = lambda n: any(x is n for x in ast.walk(lp))
         verts = [R(c.args[0], c) for c in vadds if inside(c)]
         entries = [(R(n.targets[0].slice, n), R(n.value, n), n) for n in stores if inside(n) and norm(n.targets[0].value) == M]
@@ -1593,7 +1618,7 @@ def rule_openloop_vertices(repo):
                 for k, val, n in entries:
                     if val == v and k not in (f"get_raw_method({v})", f"{v}.method"):
                         r.bad(m, fq, f"{M}[{norm(n.targets[0].slice)}] = {v}", f"the key `{k}` is not the raw function of `{v}`", n.lineno)
-    r.require_floor(3)
+    r.require_floor(5)
     return r
 
 
@@ -1727,6 +1752,7 @@ def _m(name, file, old, new, rule=None, count=1):
 
 
 MUTANTS = [
+    _m('openloop-callees-by-parent-object', OPENLOOP, "      lambda x: isinstance(x, CalleePort) and x.get_host_component() is top )", "      lambda x: isinstance(x, CalleePort) and x.get_parent_object() is top )", 'R-C02-openloop-vertices'),
     _m('call-base-not-visited', ASTH, "        self.visit( node )\n        return None, None\n", "        return None, None\n", 'R-C02-visitor', count=2),
     _m('slice-bounds-of-call-result-not-visited', ASTH, "    if not obj_name:\n      self.visit( node.slice ) # f( s.a )[ s.i : s.i+4 ] still reads s.i\n      return\n", "    if not obj_name:  return\n", 'R-C02-visitor'),
     _m('args-of-unresolvable-callee-not-visited', ASTH, "    if obj_name:\n      self.calls.append( (obj_name, nodelist, None) )\n", "    if not obj_name:  return\n\n    self.calls.append( (obj_name, nodelist, None) )\n", 'R-C02-visitor'),
@@ -1815,6 +1841,8 @@ MUTANTS = [
 ]
 
 EQUIV = [
+    _m('openloop-callee-filter-as-named-predicate', OPENLOOP, "    top_level_callee_ports = top.get_all_object_filter(\n      lambda x: isinstance(x, CalleePort) and x.get_host_component() is top )\n",
+       "    def is_top_level_callee_port( x ):\n      return isinstance(x, CalleePort) and x.get_host_component() is top\n\n    top_level_callee_ports = top.get_all_object_filter( is_top_level_callee_port )\n"),
     _m('visit-for-one-loop-over-body-and-orelse', ASTH, "    for stmt in node.body:\n      self.visit( stmt )\n    for stmt in node.orelse:\n      self.visit( stmt )\n",
        "    for stmt in [ *node.body, *node.orelse ]:\n      self.visit( stmt )\n"),
     _m('ff-writer-exemption-as-guard-clause', GENDAG, "          if wr_blk not in update_ff:\n            for rd_blk in rd_blks:\n              if wr_blk != rd_blk:\n                # if rd_blk not in update_ff:\n                impl_constraints.add( (wr_blk, rd_blk) ) # wr < rd default\n                constraint_objs[ (wr_blk, rd_blk) ].add( obj )\n",
